@@ -10,6 +10,7 @@ Only the public surface of cobald is used: ServiceRunner(accept_delay), adopt, e
 running, service, MetaRunner.register_payload / run_payload / run / stop / running.
 """
 import asyncio
+import functools
 import gc
 import json
 import logging
@@ -53,6 +54,13 @@ class ReprRaises(Exception):
         return "<ReprRaises>"
 
 
+class StrRaises(Exception):
+    """an exception that cannot be rendered as text (e.g. its message refers to an attribute that is not there)"""
+
+    def __str__(self):
+        raise AttributeError("'NoneType' object has no attribute 'name'")
+
+
 EXC_POOL = {
     "Exception": lambda: Exception("boom"),
     "KeyError": lambda: KeyError("missing"),
@@ -83,6 +91,8 @@ EXC_POOL = {
     "CustomError": lambda: CustomError("a", "b"),
     "ReprRaises": lambda: ReprRaises(),
     "ExceptionGroup": lambda: ExceptionGroup("grp", [ValueError("inner"), KeyError("k")]),
+    "ExceptionGroup1": lambda: ExceptionGroup("single", [ValueError("only")]),
+    "StrRaises": lambda: StrRaises(),
     "CancelledFuture": lambda: __import__("concurrent.futures").futures.CancelledError(),
     "InvalidStateError": lambda: asyncio.InvalidStateError("state"),
     "BrokenPipeError": lambda: BrokenPipeError(),
@@ -271,11 +281,36 @@ class World:
             w.counters[key] = seen - 1
             w.ev(pid, "section", seen=seen, ctx=w.context(flavour))
 
+        def cleanup_ops():
+            # a payload may hand work over to the runtime while it is being cancelled (adopt never raises, even then)
+            for child in cleanup.get("adopt", []):
+                w.submit(w.specs[child], "adopt", "cleanup:%d:%s" % (pid, flavour))
+
+        def stop_runtime(how):
+            rec = {"op": how, "by": "payload:%d:%s" % (pid, flavour), "t_call": w.now()}
+            try:
+                w.runner.shutdown()  # (the adapter of a bare MetaRunner maps this to stop())
+                rec["result"] = "returned"
+            except BaseException as e:  # noqa
+                rec["raised"] = type(e).__name__
+            rec["t_return"] = w.now()
+            w.ops.append(rec)
+
         def sync_instr(instr):
             """instructions that do not await; returns True if handled"""
             op = instr[0]
             if op == "section":
                 section(instr[1])
+            elif op == "section-adopt":
+                # adopt from the middle of a checkpoint-free section: the adopted payload must not start inside it
+                key = flavour
+                v = w.counters[key]
+                w.counters[key] = v + 1
+                w.submit(w.specs[instr[2]], "adopt", "payload:%d:%s" % (pid, flavour))
+                time.sleep(instr[1] / 1e6)
+                seen = w.counters[key]
+                w.counters[key] = seen - 1
+                w.ev(pid, "section", seen=seen, ctx=w.context(flavour))
             elif op == "adopt":
                 w.submit(w.specs[instr[1]], "adopt", "payload:%d:%s" % (pid, flavour))
             elif op == "execute":
@@ -313,6 +348,9 @@ class World:
                         elif op == "wait":
                             while not w.event(instr[1]).is_set():
                                 await asyncio.sleep(0.001)
+                        elif op in ("shutdown", "stop"):
+                            # the blocking call is made from a worker thread on behalf of this coroutine
+                            await asyncio.get_running_loop().run_in_executor(None, stop_runtime, op)
                         elif not sync_instr(instr):
                             raise AssertionError("bad instruction %r" % (instr,))
                         w.ev(pid, "step")
@@ -332,6 +370,7 @@ class World:
                     raise
                 finally:
                     w.ev(pid, "cleanup-begin")
+                    cleanup_ops()
                     if cleanup.get("sync_ms"):
                         time.sleep(cleanup["sync_ms"] / 1000)
                     w.ev(pid, "cleanup-done")
@@ -354,6 +393,8 @@ class World:
                         elif op == "wait":
                             while not w.event(instr[1]).is_set():
                                 await trio.sleep(0.001)
+                        elif op in ("shutdown", "stop"):
+                            await trio.to_thread.run_sync(stop_runtime, op)
                         elif not sync_instr(instr):
                             raise AssertionError("bad instruction %r" % (instr,))
                         w.ev(pid, "step")
@@ -367,6 +408,7 @@ class World:
                     raise
                 finally:
                     w.ev(pid, "cleanup-begin")
+                    cleanup_ops()
                     if cleanup.get("sync_ms"):
                         time.sleep(cleanup["sync_ms"] / 1000)
                     if cleanup.get("shield_ms"):
@@ -409,15 +451,8 @@ class World:
                                 w.submit(child, "adopt", "payload:%d:threading+private-trio" % pid)
                                 await trio.sleep(instr[3] / 1000)
                             trio.run(_inner)
-                    elif op == "shutdown":
-                        rec = {"op": "shutdown", "by": "payload:%d:threading" % pid, "t_call": w.now()}
-                        try:
-                            w.runner.shutdown()
-                            rec["result"] = "returned"
-                        except BaseException as e:  # noqa
-                            rec["raised"] = type(e).__name__
-                        rec["t_return"] = w.now()
-                        w.ops.append(rec)
+                    elif op in ("shutdown", "stop"):
+                        stop_runtime(op)
                     elif not sync_instr(instr):
                         raise AssertionError("bad instruction %r" % (instr,))
                     w.ev(pid, "step")
@@ -427,6 +462,33 @@ class World:
                 w.ev(pid, "finish")
                 return w.finish(spec)
         payload.__name__ = payload.__qualname__ = "payload_%d_%s" % (pid, flavour)
+        shape = spec.get("callable")
+        if shape == "no-module":
+            payload.__module__ = None  # as for functions made by exec() with bare globals, or methods of builtin containers
+        elif shape == "partial":
+            payload = functools.partial(payload)
+        elif shape == "instance":
+            inner = payload
+            if flavour == "threading":
+                class Callable_:
+                    def __call__(self, *args, **kwargs):
+                        return inner(*args, **kwargs)
+            else:
+                class Callable_:
+                    async def __call__(self, *args, **kwargs):
+                        return await inner(*args, **kwargs)
+            payload = Callable_()
+        elif shape == "method":
+            inner = payload
+            if flavour == "threading":
+                class Holder:
+                    def go(self, *args, **kwargs):
+                        return inner(*args, **kwargs)
+            else:
+                class Holder:
+                    async def go(self, *args, **kwargs):
+                        return await inner(*args, **kwargs)
+            payload = Holder().go
         return payload
 
     def service_class(self, spec):
